@@ -39,6 +39,7 @@ type hist struct {
 }
 
 type env struct {
+	rv   *rig.Rendezvous
 	r    *rig.Rig
 	rt   *rig.Router
 	seed int64
@@ -265,28 +266,41 @@ func (e *env) play(hi int, h hist) []tracefmt.Rec {
 		s.settle()
 		time.Sleep(100 * time.Millisecond)
 	case "handlers":
+		// K reply handlers at once for one id that both backends have pending.  They are held
+		// until all are at the consume step, and whoever gets as far as the backend write is
+		// held there for the others: a handler that looked the id up but has not consumed it
+		// yet cannot hide behind a fast write.
 		p := e.r.P.PlayerByName(name)
-		for _, id := range []int{1, 2, 3} {
+		const K = 5
+		ids := []int{4000 + 10*hi, 4001 + 10*hi}
+		if hi%2 == 1 {
+			ids = ids[:1] // all handlers fight for one id
+		}
+		for _, id := range ids {
 			s.ka("a", id)
 			s.ka("b", id)
 		}
-		if !rig.WaitFor(e.long, func() bool { return s.clientHas(3) >= 2 }) {
+		last := ids[len(ids)-1]
+		if !rig.WaitFor(e.long, func() bool { return s.clientHas(last) >= 2 }) {
 			s.notef("keep-alives never reached the client")
+		}
+		for _, id := range ids {
+			e.rv.Expect("ka.consume", int64(id), K)
+			e.rv.Expect("ka.forward", int64(id), K)
 		}
 		start := make(chan struct{})
 		var wg sync.WaitGroup
-		for g := 0; g < 6; g++ {
-			id := 1 + g%3
-			if hi%2 == 1 {
-				id = 1 // all handlers fight for one id
+		for _, id := range ids {
+			for g := 0; g < K; g++ {
+				id := id
+				wg.Add(1)
+				go func() {
+					defer wg.Done()
+					<-start
+					s.emit(tracefmt.Rec{"ev": "creply", "id": id, "handler": true})
+					proxy.VerifForwardKeepAlive(p, int64(id))
+				}()
 			}
-			wg.Add(1)
-			go func() {
-				defer wg.Done()
-				<-start
-				s.emit(tracefmt.Rec{"ev": "creply", "id": id, "handler": true})
-				proxy.VerifForwardKeepAlive(p, int64(id))
-			}()
 		}
 		close(start)
 		wg.Wait()
@@ -327,7 +341,10 @@ func TestReplay(t *testing.T) {
 		t.Fatal(err)
 	}
 	defer r.Close()
-	e := &env{r: r, rt: rig.NewRouter(map[string]*rig.SBackend{"a": a, "b": bb}), seed: tracefmt.Seed(), long: 6 * time.Second}
+	rv := rig.NewRendezvous(400 * time.Millisecond)
+	rv.Install()
+	defer rv.Uninstall()
+	e := &env{rv: rv, r: r, rt: rig.NewRouter(map[string]*rig.SBackend{"a": a, "b": bb}), seed: tracefmt.Seed(), long: 6 * time.Second}
 	tw, err := tracefmt.Create("trace.ndjson")
 	if err != nil {
 		t.Fatal(err)
@@ -369,6 +386,6 @@ func TestReplay(t *testing.T) {
 	if err := tw.Close(); err != nil {
 		t.Fatal(err)
 	}
-	tracefmt.WriteJSON("stats.json", map[string]any{"runs": runs, "aborted": aborted, "forwards": forwards,
+	tracefmt.WriteJSON("stats.json", map[string]any{"runs": runs, "aborted": aborted, "forwards": forwards, "rendezvous_met": rv.Met, "rendezvous_timed_out": rv.Timed,
 		"kinds": kinds, "samples": samples})
 }
